@@ -217,16 +217,17 @@ def run(ctx):
     # binding self-test
     import copy
     good = [t for t in traces if verdicts[t['id']][0] == 'ok' and any(e['e'] == 'cli' and e['kind'] == 'password' for e in t['ev'])]
-    a = copy.deepcopy(good[0]); a['id'] = 'twice'
-    i = [k for k, e in enumerate(a['ev']) if e['e'] == 'cli' and e['kind'] == 'password'][0]
-    a['ev'].insert(i, dict(a['ev'][i]))
-    b = copy.deepcopy(good[0]); b['id'] = 'silent-true'
-    b['result'].update(ret='True', srv_state='silent')
-    v2, _ = tracecheck.validate([{k: x[k] for k in ('id', 'ev', 'opts', 'result', 'cmds')} for x in (a, b)], 'PxsshTrace',
-                                ctx.work, procs=1, tag='selftest', pass_through=True)
-    if v2['twice'][0] == 'ok' or v2['silent-true'][0] == 'ok':
-        raise tlc.TLCError('self-test: corrupted transcripts accepted: %s' % v2)
-    ctx.note('binding self-test: password sent twice -> %s; True on a silent server -> %s' % (v2['twice'][0], v2['silent-true'][0]))
+    if common.selftest_possible(ctx, good, 'a password sent'):
+        a = copy.deepcopy(good[0]); a['id'] = 'twice'
+        i = [k for k, e in enumerate(a['ev']) if e['e'] == 'cli' and e['kind'] == 'password'][0]
+        a['ev'].insert(i, dict(a['ev'][i]))
+        b = copy.deepcopy(good[0]); b['id'] = 'silent-true'
+        b['result'].update(ret='True', srv_state='silent')
+        v2, _ = tracecheck.validate([{k: x[k] for k in ('id', 'ev', 'opts', 'result', 'cmds')} for x in (a, b)], 'PxsshTrace',
+                                    ctx.work, procs=1, tag='selftest', pass_through=True)
+        if v2['twice'][0] == 'ok' or v2['silent-true'][0] == 'ok':
+            raise tlc.TLCError('self-test: corrupted transcripts accepted: %s' % v2)
+        ctx.note('binding self-test: password sent twice -> %s; True on a silent server -> %s' % (v2['twice'][0], v2['silent-true'][0]))
     status, nviol, nknown = common.conclude(ctx)
     evidence.write('C17', ctx.tier, ctx.seed, 'model_checking', {
         'states': mc['distinct'] + pres['distinct'], 'transitions': mc['generated'] + pres['generated'],
